@@ -3275,6 +3275,11 @@ static WBXMLError wbxml_encode_wv_datetime_opaque(WBXMLEncoder *encoder, WB_UTIN
     wbxml_buffer_delete(component, 4, 10);
     year = strtoul((const char *)wbxml_buffer_get_cstr(component), NULL, 10);
     wbxml_buffer_destroy(component);
+    if (year > 4095) {
+        /* The year does not fit into 12 bits: keep the value, use the string form */
+        wbxml_buffer_destroy(tmp);
+        return wbxml_encode_wv_datetime_inline(encoder, buffer);
+    }
     octets[0] = (WB_UTINY) ((year & 0xfc0) >> 6); /* 6 bits */
     octets[1] = (WB_UTINY) (year & 0x3f);  /* 6 bits */
 
